@@ -18,7 +18,22 @@ def run_property(prop, tier, seed):
   try:
     model = core.Model()
     rep = core.Report(prop, tier, model)
-    mod.check(model, rep, tier)
+    try:
+      mod.check(model, rep, tier)
+    except Exception as e:  # pylint:disable=broad-except
+      # the rules evaluated so far stand: if they already found a violation that
+      # is not a listed finding, report it (exit 1); otherwise the run is an
+      # analysis error
+      if not any(rep._known_entry(v) is None for v in rep.violations):
+        raise
+      if not isinstance(e, core.AnalysisError):
+        traceback.print_exc()
+      print('NOTE property=%s a later rule could not be evaluated (%s: %s); the '
+            'violations found before it are reported' % (prop, type(e).__name__,
+                                                         str(e)[:120]))
+      rep.floors = {}
+      rep.notes.append('check stopped early: %s: %s' % (type(e).__name__, str(e)[:200]))
+      return rep.finish(seed)
     missed = []
     if tier == 'thorough':
       from sa import thorough
